@@ -564,3 +564,105 @@ example : (runTrace cexW [.stack none, .attrMap 0 "volume" (.add 1), .locSet 0 [
     = [none, some .attr, some .index, some .value, some .value] := by decide +kernel
 
 end Reamber.Stack
+
+namespace Reamber.Stack
+
+/-! ### mapsets: row `k` of the assigned frame goes to chart `k` -/
+
+theorem alignRow_length : ∀ (n : Nat) (row : List Cell), (alignRow n row).length = n := by
+  intro n
+  induction n with
+  | zero => intro row; rfl
+  | succ n ih => intro row; cases row <;> simp [alignRow, ih]
+
+/-- label alignment: inside the stack, position `i` receives `row[i]` (NaN beyond the end of the row) -/
+theorem getD_alignRow : ∀ (n : Nat) (row : List Cell) (i : Nat), i < n →
+    (alignRow n row).getD i .nan = row.getD i .nan := by
+  intro n
+  induction n with
+  | zero => intro row i h; omega
+  | succ n ih =>
+    intro row i h
+    cases row with
+    | nil =>
+      cases i with
+      | zero => simp [alignRow]
+      | succ i => simp only [alignRow, List.getD_cons_succ]; rw [ih [] i (by omega)]; simp
+    | cons c cs =>
+      cases i with
+      | zero => simp [alignRow]
+      | succ i => simp only [alignRow, List.getD_cons_succ]; exact ih cs i (by omega)
+
+theorem updRows_congr (sel : Nat → Bool) (cols : List String) (g g' : Nat → String → Cell → Cell) :
+    ∀ (rows : List Cells) (i : Nat), (∀ k, i ≤ k → k < i + rows.length → g k = g' k) →
+      updRows sel cols g i rows = updRows sel cols g' i rows := by
+  intro rows
+  induction rows with
+  | nil => intro i _; rfl
+  | cons r rs ih =>
+    intro i h
+    simp only [updRows]
+    rw [h i (Nat.le_refl _) (by simp), ih (i + 1) (fun k h1 h2 => h k (by omega) (by simp; omega))]
+
+/-- one chart of a mapset assignment: `s[key] = row` (a Series labelled `0…`) is the per-list assignment of
+`row[i]` at stack position `i` -/
+theorem mapset_chart_assign (m : MapW) (sid : Nat) (s : Stacker) (key : String) (row : List Cell)
+    (hst : m.stackers[sid]? = some s) (hc : Coupled s.srows 0 m.lists s.slots) :
+    contents (step m (.set sid key (.array (alignRow s.srows.length row)))).1.lists
+      = specTbls ⟨allSel, [key], fun i _ _ => row.getD i .nan⟩ 0 (contents m.lists) (s.slots.map Option.isSome) := by
+  rw [step_of_sid m _ sid rfl]
+  simp only [hst]
+  have hres : resolve (propsOf m.mcls) s (.set sid key (.array (alignRow s.srows.length row)))
+      = .ok (.act ⟨allSel, [key], fun i _ _ => (alignRow s.srows.length row).getD i .nan⟩) := by
+    simp only [resolve, alignRow_length]
+    by_cases he : s.srows = []
+    · simp [he, alignRow]
+    · have : ¬ (s.srows.isEmpty = true) := by simpa using he
+      simp [this]
+  simp only [hres]
+  have heq : (applyAction m sid s ⟨allSel, [key], fun i _ _ => (alignRow s.srows.length row).getD i .nan⟩).lists
+      = (applyAction m sid s ⟨allSel, [key], fun i _ _ => row.getD i .nan⟩).lists := by
+    simp only [applyAction, assign]
+    rw [updRows_congr allSel [key] _ (fun i _ _ => row.getD i .nan) s.srows 0
+      (fun k _ hk => by funext _ _; exact getD_alignRow _ _ _ (by omega))]
+  rw [heq]
+  exact assign_write_through m sid s _ hc
+
+/-- every chart's stacker behind the mapset stacker is up to date -/
+def ChartsFresh : List MapW → List Nat → Prop
+  | m :: ms, sid :: sids => (∃ s, m.stackers[sid]? = some s ∧ Coupled s.srows 0 m.lists s.slots) ∧ ChartsFresh ms sids
+  | _, _ => True
+
+def memberAt (m : MapW) (sid : Nat) : List Bool :=
+  match m.stackers[sid]? with
+  | some s => s.slots.map Option.isSome
+  | none => []
+
+/-- the mapset assignment, chart by chart, as per-list assignments; charts beyond the frame's rows are not assigned -/
+def specSetT (key : String) : List MapW → List Nat → List (List Cell) → List (List Tbl)
+  | m :: ms, sid :: sids, row :: rows =>
+      specTbls ⟨allSel, [key], fun i _ _ => row.getD i .nan⟩ 0 (contents m.lists) (memberAt m sid) :: specSetT key ms sids rows
+  | ms, _, _ => ms.map (fun m => contents m.lists)
+
+/-- **mapset_broadcast**: `MapSet.Stacker.__setitem__` assigns row `k` of the frame to chart `k` — the same per-list
+assignment as for a single chart — and leaves the charts beyond the frame's rows alone (any number of charts, charts
+of different lengths, empty charts, rows shorter or longer than the chart). -/
+theorem mapset_broadcast (key : String) : ∀ (maps : List MapW) (sids : List Nat) (rows : List (List Cell)),
+    ChartsFresh maps sids →
+    (setRows key maps sids rows).map (fun m => contents m.lists) = specSetT key maps sids rows := by
+  intro maps
+  induction maps with
+  | nil => intro sids rows _; cases sids <;> cases rows <;> simp [setRows, specSetT]
+  | cons m ms ih =>
+    intro sids rows hf
+    cases sids with
+    | nil => simp [setRows, specSetT]
+    | cons sid sids =>
+      cases rows with
+      | nil => simp [setRows, specSetT]
+      | cons row rows =>
+        obtain ⟨⟨s, hst, hc⟩, hrest⟩ := hf
+        simp only [setRows, specSetT, List.map_cons, hst, memberAt, ih sids rows hrest]
+        rw [mapset_chart_assign m sid s key row hst hc]
+
+end Reamber.Stack
